@@ -187,7 +187,8 @@ def st_op(draw, key, rich=True):
         k = draw(st.sampled_from(["deposit", "deposit", "withdraw", "buy", "buy", "buy", "sell", "sell"]))
         if k in ("deposit", "withdraw"):
             return [key, k, f]
-        mode = draw(st.sampled_from([None, None, None, ["cap", "1.02"], ["cap", "1.5"], ["cap", "2"], ["cap", "3"], ["token", 0], ["token", 1], ["usd", 0]]))
+        mode = draw(st.sampled_from([None, None, None, ["cap", "1.02"], ["cap", "1.5"], ["cap", "2"], ["cap", "3"], ["token", 0], ["token", 1], ["usd", 0],
+                                     ["token", 0, "1.0004"], ["usd", 0, "1.0004"], ["usd", 1, "0.9996"]]))  # third element: a limit price a few 0.01% off the level (the +-0.1% window)
         return [key, k, draw(st.integers(0, 3)), draw(st.sampled_from(["0.4", "1", "2", "7", "45", "5000"])), mode]
     if key == "glp":
         k = draw(st.sampled_from(["buy_glp", "buy_glp", "sell_glp"]))
